@@ -119,6 +119,22 @@ def _optimize_operator_call_attr(  # pylint: disable=too-many-return-statements
     return node
 
 
+def _hoist_globals(names: list[str], body: list[ast.stmt]) -> list[ast.stmt]:
+    """Return the function `body` preceded by a single `global` declaration of `names`
+    (after the docstring, if there is one)."""
+    if not names:
+        return body
+    decl = ast.Global(names=names)
+    if (
+        body
+        and isinstance(body[0], ast.Expr)
+        and isinstance(body[0].value, ast.Constant)
+        and isinstance(body[0].value.value, str)
+    ):
+        return [body[0], decl, *body[1:]]
+    return [decl, *body]
+
+
 class PythonASTOptimizer(ast.NodeTransformer):
     __slots__ = ("_global_ctx",)
 
@@ -173,17 +189,27 @@ class PythonASTOptimizer(ast.NodeTransformer):
         """Eliminate dead code from function bodies."""
         with self._new_global_context():
             new_node = self.generic_visit(node)
+            global_names = sorted(self._global_context)
         assert isinstance(new_node, ast.FunctionDef)
         return ast.copy_location(
             ast_FunctionDef(
                 name=new_node.name,
                 args=new_node.args,
-                body=_filter_dead_code(new_node.body),
+                body=_hoist_globals(global_names, _filter_dead_code(new_node.body)),
                 decorator_list=new_node.decorator_list,
                 returns=new_node.returns,
             ),
             new_node,
         )
+
+    def visit_AsyncFunctionDef(self, node: ast.AsyncFunctionDef) -> ast.AST | None:
+        """Give async functions their own Python `global` context."""
+        with self._new_global_context():
+            new_node = self.generic_visit(node)
+            global_names = sorted(self._global_context)
+        assert isinstance(new_node, ast.AsyncFunctionDef)
+        new_node.body = _hoist_globals(global_names, new_node.body)
+        return new_node
 
     def visit_Global(self, node: ast.Global) -> ast.Global | None:
         """Eliminate redundant name declarations inside a Python `global` statement.
@@ -194,6 +220,11 @@ class PythonASTOptimizer(ast.NodeTransformer):
         `global` statement are redundant, the entire node will be omitted."""
         new_names = set(node.names) - self._global_context
         self._global_context.update(new_names)
+        if len(self._global_ctx) > 1:
+            # Inside a function the declaration is emitted once, ahead of the function
+            # body (see `_hoist_globals`), because Python rejects a `global` statement
+            # which follows any other use of the name in the same function.
+            return None
         return (
             ast.copy_location(ast.Global(names=list(new_names)), node)
             if new_names
